@@ -25,9 +25,9 @@ theorem sum_set (l : List TState) (t : Nat) (y x : TState) (h : l[t]? = some y) 
       have := ih t h
       simp only [List.set_cons_succ, List.map_cons, List.sum_cons]; omega
 
-/-- every transition decreases the measure by exactly one -/
+/-- every transition decreases the measure by at least one -/
 theorem qStep_measure (s s' : QState) (a : QAction) (h : qStep s a = some s') :
-    qMeasure s' + 1 = qMeasure s := by
+    qMeasure s' + 1 ≤ qMeasure s := by
   rw [qMeasure_eq, qMeasure_eq]
   cases a with
   | take t =>
@@ -57,7 +57,17 @@ theorem qStep_measure (s s' : QState) (a : QAction) (h : qStep s a = some s') :
       simp only [Option.some.injEq] at h; subst h
       have := sum_set s.threads t (.running p) .atHead ht
       simp only [tWeight] at this
-      show 2 * s.queue.length + ((s.threads.set t TState.atHead).map tWeight).sum + 1 = _
+      show 2 * s.queue.length + ((s.threads.set t TState.atHead).map tWeight).sum + 1 ≤ _
+      omega
+    · simp at h
+  | fail t =>
+    simp only [qStep] at h
+    split at h
+    · rename_i p ht
+      simp only [Option.some.injEq] at h; subst h
+      have := sum_set s.threads t (.running p) .failed ht
+      simp only [tWeight] at this
+      show 2 * s.queue.length + ((s.threads.set t TState.failed).map tWeight).sum + 1 ≤ _
       omega
     · simp at h
 
@@ -113,6 +123,17 @@ theorem qStep_inv (parts : List Nat) (s s' : QState) (a : QAction) (hi : QInv pa
       · cases h1
       · exact hi.done_empty ⟨u, h1⟩
     · simp at h
+  | fail t =>
+    simp only [qStep] at h
+    split at h
+    · rename_i p ht
+      simp only [Option.some.injEq] at h; subst h
+      refine ⟨hi.conserve, ?_⟩
+      rintro ⟨u, hu⟩
+      rcases getElem?_set_cases _ _ _ _ _ hu with h1 | h1
+      · cases h1
+      · exact hi.done_empty ⟨u, h1⟩
+    · simp at h
 
 theorem qInit_inv (p t : Nat) : QInv (List.range p) (qInit p t) := by
   refine ⟨by simp [qInit], ?_⟩
@@ -122,7 +143,7 @@ theorem qInit_inv (p t : Nat) : QInv (List.range p) (qInit p t) := by
   split at hu <;> simp at hu
 
 theorem qRun_inv (parts : List Nat) (s s' : QState) (as : List QAction) (hi : QInv parts s)
-    (h : qRun s as = some s') : QInv parts s' ∧ as.length + qMeasure s' = qMeasure s := by
+    (h : qRun s as = some s') : QInv parts s' ∧ as.length + qMeasure s' ≤ qMeasure s := by
   induction as generalizing s with
   | nil => simp [qRun] at h; subst h; exact ⟨hi, by simp⟩
   | cons a as ih =>
@@ -133,11 +154,97 @@ theorem qRun_inv (parts : List Nat) (s s' : QState) (as : List QAction) (hi : QI
       simp only [hs] at h
       obtain ⟨i1, i2⟩ := ih s₁ (qStep_inv parts s s₁ a hi hs) h
       refine ⟨i1, ?_⟩
-      have := qStep_measure s s₁ a hs
-      simp only [List.length_cons]; omega
+      have h3 := qStep_measure s s₁ a hs
+      rw [List.length_cons]
+      omega
 
 theorem qInit_measure (p t : Nat) : qMeasure (qInit p t) = 2 * p + t := by
   rw [qMeasure_eq]
   simp [qInit, tWeight]
+
+end Pyndl
+
+namespace Pyndl
+open List
+
+def QAction.isFail : QAction → Bool
+  | .fail _ => true
+  | _ => false
+
+theorem any_set (l : List TState) (t : Nat) (y x : TState) (P : TState → Bool) (h : l[t]? = some y) :
+    (l.set t x).any P = ((l.eraseIdx t).any P || P x) := by
+  induction l generalizing t with
+  | nil => simp at h
+  | cons a l ih =>
+    cases t with
+    | zero => simp [List.set, Bool.or_comm]
+    | succ t =>
+      simp at h
+      simp only [List.set_cons_succ, List.any_cons, List.eraseIdx_cons_succ, ih t h, Bool.or_assoc]
+
+theorem any_eq_erase (l : List TState) (t : Nat) (y : TState) (P : TState → Bool) (h : l[t]? = some y) :
+    l.any P = ((l.eraseIdx t).any P || P y) := by
+  induction l generalizing t with
+  | nil => simp at h
+  | cons a l ih =>
+    cases t with
+    | zero => simp at h; subst h; simp [Bool.or_comm]
+    | succ t =>
+      simp at h
+      simp only [List.any_cons, List.eraseIdx_cons_succ, ih t h, Bool.or_assoc]
+
+/-- a transition makes the run "raising" iff it is a failing kernel call -/
+theorem qStep_raises (s s' : QState) (a : QAction) (h : qStep s a = some s') :
+    qRaises s' = (qRaises s || a.isFail) := by
+  unfold qRaises
+  cases a with
+  | take t =>
+    simp only [qStep] at h
+    split at h
+    · rename_i p rest ht hq
+      simp only [Option.some.injEq] at h; subst h
+      rw [any_set _ t _ _ _ ht, any_eq_erase s.threads t _ _ ht]
+      simp [QAction.isFail]
+    · simp at h
+  | exit t =>
+    simp only [qStep] at h
+    split at h
+    · rename_i ht hq
+      simp only [Option.some.injEq] at h; subst h
+      rw [any_set _ t _ _ _ ht, any_eq_erase s.threads t _ _ ht]
+      simp [QAction.isFail]
+    · simp at h
+  | finish t =>
+    simp only [qStep] at h
+    split at h
+    · rename_i p ht
+      simp only [Option.some.injEq] at h; subst h
+      rw [any_set _ t _ _ _ ht, any_eq_erase s.threads t _ _ ht]
+      simp [QAction.isFail]
+    · simp at h
+  | fail t =>
+    simp only [qStep] at h
+    split at h
+    · rename_i p ht
+      simp only [Option.some.injEq] at h; subst h
+      rw [any_set _ t _ _ _ ht]
+      simp [QAction.isFail]
+    · simp at h
+
+theorem qRun_raises (s s' : QState) (as : List QAction) (h : qRun s as = some s') :
+    qRaises s' = (qRaises s || as.any QAction.isFail) := by
+  induction as generalizing s with
+  | nil => simp [qRun] at h; subst h; simp
+  | cons a as ih =>
+    simp only [qRun] at h
+    cases hs : qStep s a with
+    | none => simp [hs] at h
+    | some s₁ =>
+      simp only [hs] at h
+      rw [ih s₁ h, qStep_raises s s₁ a hs]
+      simp [Bool.or_assoc]
+
+theorem qInit_not_raises (p t : Nat) : qRaises (qInit p t) = false := by
+  simp [qRaises, qInit]
 
 end Pyndl
